@@ -149,7 +149,7 @@ def clone_point(iso):
     d = iso.to_dict()
     mat = iso.material
     d["material"] = Material(mat.name, **copy.deepcopy(mat.properties))
-    d["adsorbate"] = iso.adsorbate
+    d["adsorbate"] = str(iso.adsorbate)
     return pygaps.PointIsotherm(
         isotherm_data=iso.data_raw.copy(deep=True), pressure_key=iso.pressure_key, loading_key=iso.loading_key, **d)
 
